@@ -49,9 +49,16 @@ def exp(sel=True, marked=True, ev="ok", v4=(), v6=(), expr="", why=""):
             "expr": expr, "why": why}
 
 class Irr:
+    count = 0
     def __init__(self):
         self.db = {"as_sets": {}, "routes4": {}, "routes6": {}, "errors": {}, "filter_sets": {}, "route_sets": {}}
         self.n = 0
+        # every fifth IRR database of a generation answers in pieces of a few bytes, every seventh with padded answers
+        Irr.count += 1
+        if Irr.count % 5 == 0:
+            self.db["dribble"] = [1, 3, 7, 50][(Irr.count // 5) % 4]
+        if Irr.count % 7 == 0:
+            self.db["pad"] = 5000
     def asset_with(self, v4, v6):
         """a fresh as-set whose (nested) members originate exactly these atoms"""
         self.n += 1
